@@ -612,7 +612,12 @@ func (t *Uint32Tree) NewScanner(key uint32) *Uint32Cursor {
 		n = child
 	}
 	ln := n.(*uint32LeafNode)
-	return newUint32Cursor(ln, uint32SearchGreaterThanOrEqualTo(key, ln.runts))
+	index := uint32SearchGreaterThanOrEqualTo(key, ln.runts)
+	if index < len(ln.runts) && ln.runts[index] < key {
+		// every key of this leaf is smaller than key: start at the next leaf
+		index++
+	}
+	return newUint32Cursor(ln, index)
 }
 
 // Uint32Cursor is used to enumerate key-value pairs from the tree in
